@@ -40,26 +40,31 @@ from vf.ref import c20_model as M
 ID = "C20"
 LEVEL = "exploration"
 RULE = (
-    "URI: hosts {6 DNS names, 5 IPv4 incl. 0.0.0.0/255.255.255.255, 10 IPv6: full, zero-run, compressed, "
+    "URI: hosts {7 names, 5 IPv4 incl. 0.0.0.0/255.255.255.255, 10 IPv6: full, zero-run, compressed, "
     "::, ::1, link-local, v4-mapped (dotted+hex), upper case} x ports {None,0,1,80,65535} x every scheme "
     "of TransportScheme x parameter maps of the scheme's config model: every field absent (if optional) or "
-    "one of 2-3 boundary values, spelled dec/hex/oct/bin - DoIP, HSFZ, can-raw: full product with "
-    "independent spellings; ISO-TP: full presence/value product under each uniform spelling plus all 4^8 "
-    "spelling assignments of the all-present map. quick: all hosts x ports x a small map set, full map "
-    "sets x 4 representative (host, port); thorough: full map sets x all hosts x ports. host:port: all "
-    "hosts x ports (+ every port 0..65535 for 1 (quick) / 4 (thorough) hosts), with and without "
-    "default_port. builders: real HSFZDiscoverer.probe, AST-extracted ISO-TP block and doip:// f-strings "
-    "with boundary addresses/timeouts. Ranges: numerals {0,1,7,0x10,0o7,0b11,255,0xffff}; token = numeral "
-    "or a-b (72 tokens, 7 of them 'wide' = more than 4096 elements, 28 reversed); unravel/Ranges: all "
-    "expressions of <=3 tokens (quick: wide tokens only up to 2 tokens), all 4-token expressions over the "
-    "65 non-wide tokens (thorough) / over the 30 tokens of numerals {0,1,0x10,0o7,0b11} (quick); "
-    "whitespace variants for <=2 (quick) / <=3 (thorough) tokens; unravel_2d/Ranges2D: all sequences of "
-    "<=3 groups outer[:inner] over 8x9 (quick) / 12x14 (thorough) outer/inner expressions incl. overlapping "
-    "and repeated keys, bare keys, reversed and empty parts, 1-/2-space/tab/leading/trailing whitespace. "
-    "A URI case is non-trivial if it has a port, a parameter or a non-DNS host; a range case if it has a "
-    "range, a non-decimal numeral or >=2 tokens. distinct_nontrivial counts distinct (scheme, host, port), "
-    "distinct (scheme, parameter map), distinct builder argument tuples and distinct (entry, denotation) "
-    "pairs of non-trivial range cases"
+    "one of 2-4 boundary values, spelled dec/hex/oct/bin - DoIP, HSFZ, can-raw: full product with "
+    "independent spellings per field; ISO-TP: full presence/value product under each uniform spelling plus "
+    "all 4^8 spelling assignments of the all-present map. quick: all hosts x ports x a small map set "
+    "(required-only/all-present, extreme values, uniform + one mixed spelling) and the full map sets x 4 "
+    "representative (host, port) (ISO-TP: 2); thorough: full map sets x all hosts x ports (ISO-TP: all hosts, "
+    "no port) plus a larger ISO-TP set (3 values per field, 2 all-present vectors) x 2 representatives. "
+    "host:port: all hosts x ports x default_port {None,0,13400} (+ every port 0..65535 for 1 (quick) / 4 "
+    "(thorough) hosts). builders: real HSFZDiscoverer.probe coroutine, AST-extracted ISO-TP block and "
+    "doip:// f-strings with boundary addresses/ports/timeouts. Ranges: numerals "
+    "{0,1,7,0x10,0o7,0b11,255,0xffff}; token = numeral or a-b (72 tokens, 7 of them 'wide' = more than 4096 "
+    "elements, 28 reversed); unravel/Ranges: all expressions of <=2 tokens over all 72 tokens, all 3-token "
+    "expressions over the 65 non-wide tokens (thorough: plus over 65 + the wide tokens 0-0xffff, 0x10-0xffff, "
+    "255-0xffff), all 4-token expressions over the 65 non-wide tokens (thorough) / over the 30 tokens of "
+    "numerals {0,1,0x10,0o7,0b11} (quick); each via unravel(str), Ranges(str with commas / blanks), "
+    "Ranges(list of tokens / one-element list); 11 whitespace placements for <=2 (quick) / <=3 (thorough) "
+    "tokens. unravel_2d/Ranges2D: all sequences of <=3 groups outer[:inner] over 7 outer x (bare + 6 inner) "
+    "(quick) / 12 outer x (bare + 13 inner) (thorough) expressions incl. overlapping and repeated keys, bare "
+    "keys before/after listed ones, reversed and empty parts; str with 1 and 2 blanks, list of groups, and for "
+    "<=2 groups leading/trailing blank, tab, one-element list. A URI case is non-trivial if it has a port, a "
+    "parameter or a non-DNS host; a range case if it has a range, a non-decimal numeral or >=2 tokens. "
+    "distinct_nontrivial counts distinct (scheme, host, port), distinct (scheme, parameter map), distinct "
+    "host:port and builder argument tuples and distinct (entry point, denotation) pairs of non-trivial range cases"
 )
 ASSUMPTIONS = [
     "hosts are compared as hosts (IP literals by address value, DNS names case-insensitively); ports and "
@@ -80,7 +85,7 @@ CHUNK = None
 # ---------------------------------------------------------------------------------------------
 # alphabets
 
-HOSTS_DNS = ["localhost", "ecu", "ecu-1.example.com", "a.b-c.d.example", "xn--bcher-kva.example", "ECU1.Example.COM"]
+HOSTS_DNS = ["localhost", "can0", "ecu", "ecu-1.example.com", "a.b-c.d.example", "xn--bcher-kva.example", "ECU1.Example.COM"]
 HOSTS_V4 = ["0.0.0.0", "255.255.255.255", "127.0.0.1", "192.168.0.1", "10.0.0.255"]
 HOSTS_V6 = [
     "::1",
@@ -96,7 +101,7 @@ HOSTS_V6 = [
 ]
 HOSTS = HOSTS_DNS + HOSTS_V4 + HOSTS_V6
 PORTS: list[int | None] = [None, 0, 1, 80, 65535]
-REPS: list[tuple[str, int | None]] = [("ecu-1.example.com", None), ("192.168.0.1", 80), ("fe80::1", 65535), ("2001:db8::1", None)]
+REPS: list[tuple[str, int | None]] = [("can0", None), ("192.168.0.1", 80), ("fe80::1", 65535), ("2001:db8::1", None)]
 ALLPORT_HOSTS = ["ecu", "10.0.0.255", "::1", "fe80::1ff:fe23:4567:890a"]
 
 # field tables: (name, kind, required, boundary values - the two extremes first)
@@ -207,10 +212,10 @@ def _r(i: int, j: int) -> Tok:
     return Tok(i, j)
 
 
-OUTER_Q = [Expr(_n(0)), Expr(_n(1)), Expr(_n(5)), Expr(_n(3)), Expr(_r(0, 1)), Expr(_r(1, 5)), Expr(_n(0), _n(5)), Expr(_r(2, 1))]
-INNER_Q = [Expr(_n(0)), Expr(_n(4)), Expr(_n(7)), Expr(_r(0, 1)), Expr(_r(1, 2)), Expr(_n(2), _n(6)), Expr(_r(3, 3)), Expr(_r(2, 0))]
-OUTER_T = OUTER_Q + [Expr(_n(2)), Expr(_n(4)), Expr(_r(0, 5)), Expr(_n(3), _r(0, 1))]
-INNER_T = INNER_Q + [Expr(_n(1)), Expr(_n(6)), Expr(_r(5, 3)), Expr(_r(0, 1), _r(1, 2)), Expr(empty=True)]
+OUTER_Q = [Expr(_n(0)), Expr(_n(1)), Expr(_n(5)), Expr(_r(0, 1)), Expr(_r(1, 5)), Expr(_n(0), _n(5)), Expr(_r(2, 1))]
+INNER_Q = [Expr(_n(4)), Expr(_n(7)), Expr(_r(0, 1)), Expr(_r(1, 2)), Expr(_r(3, 3)), Expr(_r(2, 0))]
+OUTER_T = OUTER_Q + [Expr(_n(3)), Expr(_n(2)), Expr(_n(4)), Expr(_r(0, 5)), Expr(_n(3), _r(0, 1))]
+INNER_T = INNER_Q + [Expr(_n(0)), Expr(_n(2), _n(6)), Expr(_n(1)), Expr(_n(6)), Expr(_r(5, 3)), Expr(_r(0, 1), _r(1, 2)), Expr(empty=True)]
 
 
 def _groups(tier: str) -> list[tuple[Expr, Expr | None]]:
@@ -1087,7 +1092,7 @@ def run_r2(res: Result, tier: str, ngroups: int, prefix: tuple[int, ...], ws: bo
     for key in sorted(seen_local, key=repr):
         res.seen("nontrivial", ("unravel_2d", key))
         res.seen("nontrivial", ("Ranges2D", key))
-    if n and ngroups == 2 and prefix == (10,):
+    if n and ngroups == 2 and prefix == (11,):
         res.sample({"unravel_2d": text, "denotes": _short(expected)}, cap=1)
 
 
@@ -1165,7 +1170,7 @@ def items(tier: str, seed: int) -> list[tuple[Any, ...]]:
         elif quick:
             plans = [("quick", REPS[:2])]
         else:
-            plans = [("quick", [(h, p) for h in HOSTS for p in (None, 80)]), ("thorough", REPS[:2])]
+            plans = [("quick", [(h, None) for h in HOSTS]), ("thorough", REPS[:2])]
         for size, hps in plans:
             for vi, vec in enumerate(mapsets(scheme, size)["full"]):
                 # fix leading fields until the remaining product is small enough
